@@ -8,4 +8,5 @@ NoVals == [sub |-> {}, ses |-> {}, task |-> {}, run |-> {}, space |-> {}, desc |
 NumWordsT == 300..399
 PetWordsT == 400..899
 Empty == {}
+DsNone == [func |-> 0]
 =============================================================================
